@@ -266,6 +266,8 @@ func symIntrinsic(fr *frame, fn *ssa.Function, args []value) (value, bool) {
 		return nil, true
 	case "verifChanDrained":
 		return len(unwrapChan(args[0]).drained), true
+	case "verifChanSeq":
+		return unwrapChan(args[0]).lastSeq, true
 	case "verifChanSends":
 		return unwrapChan(args[0]).sends, true
 	case "verifYield":
